@@ -499,6 +499,9 @@ func c05Oracle(line, out string) string {
 	if strings.HasPrefix(out, "enc-depends-on-location") {
 		return valClauseZone
 	}
+	if out == "enc-result-overwritten" {
+		return valClauseOwn
+	}
 	if f[0] == "cal" {
 		return c05CalOracle(f, out)
 	}
